@@ -88,7 +88,7 @@ def check_case(case):
     okr, got = lib_call(run)
     if not okr:
         # an exception is acceptable only if it stems from a step whose outcome is undefined
-        if any(r["why"] in ("Undefined", "Conflict", "Magnitude") for r in ref) or (allow and any(r["applicable"] is False for r in ref)):
+        if any(r["why"] in ("Undefined", "Conflict", "Magnitude", "Ambiguous") for r in ref) or (allow and any(r["applicable"] is False for r in ref)):
             res.skipped = "undefined-step-raised"
             return res
         res.bad(f"C04/parse_plan/exception:{got.key}", {**info, "error": repr(got)})
